@@ -116,6 +116,9 @@ TRANSFORM_PHASE = [("myst_parser/mdit_to_docutils/transforms.py", ""), ("myst_pa
                    ("myst_parser/parsers/sphinx_.py", "MystParser.parse")]
 
 
+LAST_HANDLER_ROWS = []
+
+
 class Untranslatable(Exception):
     pass
 
@@ -162,6 +165,7 @@ class ModuleScan(ast.NodeVisitor):
         self.classes = set()
         self.local_import_nodes = []
         self.errors = []
+        self.handler_rows = []
 
     # -------------------------------------------------------------- helpers
     def func_name(self):
@@ -268,11 +272,51 @@ class ModuleScan(ast.NodeVisitor):
             self.visit(st)
         self.try_stack.pop()
         for h in node.handlers:
+            self.add_handler_row(h, [c for c in (self.resolve_class(h.type) if h.type is not None else ["BaseException"])])
+        for h in node.handlers:
             self._cur_handler = h
             for st in h.body:
                 self.visit(st)
         for st in node.orelse + node.finalbody:
             self.visit(st)
+
+    WARN_CALLS = {"create_warning", "warning", "error", "severe", "system_message", "ParseWarnings", "info", "log_warning"}
+
+    def add_handler_row(self, h, caught):
+        """what a handler body does with the exception: re-raise (which classes), report (a warning / system message
+        call), or neither (silent fallback)."""
+        reraised, warns = [], False
+
+        def walk(n):
+            nonlocal warns
+            if isinstance(n, (ast.FunctionDef, ast.AsyncFunctionDef, ast.Lambda, ast.ClassDef)):
+                return
+            if isinstance(n, ast.Raise):
+                if n.exc is None:
+                    reraised.extend(caught)
+                else:
+                    e = n.exc
+                    if isinstance(e, ast.Call) and isinstance(e.func, ast.Attribute) and e.func.attr == "with_traceback":
+                        e = e.func.value
+                    if isinstance(e, ast.Call) and isinstance(e.func, ast.Attribute) and e.func.attr == "clone":
+                        reraised.extend(caught)   # exc.clone(...): the same class
+                    else:
+                        if isinstance(e, ast.Call):
+                            e = e.func
+                        reraised.extend(self.resolve_class(e))
+            if isinstance(n, ast.Call):
+                nm = n.func.attr if isinstance(n.func, ast.Attribute) else (n.func.id if isinstance(n.func, ast.Name) else "")
+                if nm in self.WARN_CALLS:
+                    warns = True
+            for c in ast.iter_child_nodes(n):
+                walk(c)
+        for st in h.body:
+            walk(st)
+        fn = self.func_name()
+        idx = sum(1 for r in self.handler_rows if r["func"] == fn)
+        action = "raise" if reraised else ("warn" if warns else "silent")
+        self.handler_rows.append({"file": self.rel, "func": fn, "line": h.lineno, "idx": idx, "caught": caught,
+                                  "reraised": list(dict.fromkeys(reraised)), "action": action})
 
     def visit_TryStar(self, node):  # pragma: no cover
         raise Untranslatable(f"{self.rel}:{node.lineno}: try/except* not understood")
@@ -289,6 +333,9 @@ class ModuleScan(ast.NodeVisitor):
                     hs.extend(self.resolve_class(a))
         if hs:
             self.try_stack.append((len(self.func_stack), hs))
+            fn = self.func_name()
+            self.handler_rows.append({"file": self.rel, "func": fn, "line": node.lineno, "idx": sum(1 for r in self.handler_rows if r["func"] == fn),
+                                      "caught": hs, "reraised": [], "action": "silent"})
         for st in node.body:
             self.visit(st)
         if hs:
@@ -466,10 +513,13 @@ def scan_repo(repo: Path):
     files = sorted(p.relative_to(repo).as_posix() for p in (repo / "myst_parser").rglob("*.py"))
     sites, raises, classes, hashes = [], [], set(), {}
     errors = []
+    global LAST_HANDLER_ROWS
+    LAST_HANDLER_ROWS = []
     for rel in files:
         sc = ModuleScan(repo, rel)
         sc.visit(sc.tree)
         errors += sc.errors
+        LAST_HANDLER_ROWS += sc.handler_rows
         sites += sc.sites
         raises += sc.raises
         classes |= sc.classes
@@ -544,6 +594,15 @@ def render(sites, raises, classes, table_names):
     L.append("Definition mro : list (string * list string) := [")
     L.append(";\n".join("  (%s, [%s])" % (coq_str(qual(c)), "; ".join(coq_str(qual(a)) for a in c.__mro__[1:] if a is not object))
                         for c in sorted(cls, key=qual)))
+    L.append("].")
+    L.append("")
+    L.append("(* every except clause / suppress block: classes caught, classes (re-)raised inside the handler body, and what")
+    L.append("   the body does: raise | warn (a warning / system-message call) | silent (neither) *)")
+    L.append("Definition handlers : list hrow := [")
+    L.append(";\n".join(
+        "  mk_hrow %s %s %d %d [%s] [%s] %s" % (coq_str(h["file"]), coq_str(h["func"]), h["line"], h["idx"],
+                                              "; ".join(coq_str(c) for c in h["caught"]), "; ".join(coq_str(c) for c in h["reraised"]),
+                                              coq_str(h["action"])) for h in LAST_HANDLER_ROWS))
     L.append("].")
     L.append("")
     L.append("Definition unresolved_classes : list string := [%s]." % "; ".join(coq_str(u) for u in unresolved))
